@@ -240,6 +240,7 @@ func defsC18() []*ph.Def {
 						}
 						if nal >= 2 {
 							o.Aliases = append(o.Aliases, "other")
+							o.SplitAlias = env != "" // half of them: one Alias() modifier per alias
 						}
 						d := &ph.Def{Help: "help", Root: ph.CmdDef{Name: "prog", Desc: "the program",
 							Opts: []ph.OptDef{{Name: "alpha", Kind: ph.Bool, Desc: "a flag"}, o, {Name: "zeta", Kind: ph.Str, DefS: "z", Aliases: []string{"z"}}}}}
@@ -266,6 +267,16 @@ func defsC18() []*ph.Def {
 			}
 			out = append(out, d)
 		}
+	}
+	// the same definitions with Help() rendered after every declaration step (a non-initial history)
+	n := len(out)
+	for i := 0; i < n; i++ {
+		if i%3 != 0 && i < 432 {
+			continue
+		}
+		d := *out[i]
+		d.EarlyHelp = true
+		out = append(out, &d)
 	}
 	return out
 }
@@ -362,7 +373,7 @@ func init() {
 	register(&Check{
 		ID:        "C18",
 		QuickSecs: 60, ThoroSecs: 300,
-		Rule: "complete finite product: 12 option kinds x alias count {0,1,2} x required x environment binding x description {none, one line, two lines} for the option of interest inside a three-option program (432 definitions), plus 24 command trees (every kind as inherited root option, commands with descriptions, sub-command, argument declarations, UnsetOptions wrapper, with and without help command) at every level; " +
+		Rule: "complete finite product: 12 option kinds x alias count {0,1,2} x required x environment binding x description {none, one line, two lines} for the option of interest inside a three-option program (432 definitions), plus 24 command trees (every kind as inherited root option, commands with descriptions, sub-command, argument declarations, UnsetOptions wrapper, with and without help command) at every level, and the same definitions again with Help() rendered after every declaration step; " +
 			"each help text is parsed structurally (sections, entries) and checked clause by clause, and the texts reached through the help option, the help command and Help() are compared byte for byte; states = definitions x levels, transitions = help texts generated, distinct_nontrivial = distinct help texts",
 		Assume: []string{"the exact layout (padding, wrapping) is not part of the property and is not compared"},
 		Run: func(c *RunCtx) {
